@@ -1,4 +1,4 @@
-import GqlModel.Json.Model
+import GqlModel.Json.Spec
 import GqlModel.Ops.WireOps
 /-
   Driver ops of the JSON layer (C19).
@@ -7,6 +7,11 @@ import GqlModel.Ops.WireOps
     jsonenc <query document sexp>  → hex of the JSON text of encodeQueryDoc d (= json.Marshal)
     jsonstr <hex>                  → hex of renderString (one JSON string literal)
     jsonsan <hex>                  → hex of sanitize (what the string reads back as)
+    jsondec <json tree sexp>       → sexp (positions zero) of decodeQueryDoc j, or E,<error>
+                                     (json tree: N | T | F | <int> | x<hex> | (A item…) | (O x<key> value …))
+    jsonwf  <query document sexp>  → 1 / 0 : utf8CleanB d (the hypothesis of C19_roundtrip)
+    jsonsrcwf <hex source text>    → 1 / 0 : sourceCleanB (every token of the lexer model has a well-formed UTF-8 value)
+    jsonlegacy <query document sexp> → jsonrt with the discriminator decode.go had before its repair (history)
 -/
 namespace Gql.Ops
 open Gql Gql.Json
@@ -39,7 +44,44 @@ def opJsonSan : List String → String
     | none => "bad-hex"
   | _ => "bad-args"
 
+mutual
+  partial def jsonOfSexp : Sexp → Option Json
+    | .tag "N" => some .null
+    | .tag "T" => some (.bool true)
+    | .tag "F" => some (.bool false)
+    | .int i => some (.num i)
+    | .bytes b => some (.str b)
+    | .list (.tag "A" :: xs) => (xs.mapM jsonOfSexp).map fun l => .arr (JList.ofList l)
+    | .list (.tag "O" :: kvs) => (jfieldsOfSexp kvs).map fun l => .obj (JFields.ofList l)
+    | _ => none
+  partial def jfieldsOfSexp : List Sexp → Option (List (Bytes × Json))
+    | [] => some []
+    | .bytes k :: v :: rest => do
+      let v' ← jsonOfSexp v
+      let r ← jfieldsOfSexp rest
+      pure ((k, v') :: r)
+    | _ => none
+end
+
+def opJsonDec (args : List String) : String :=
+  match Sexp.parse (joinArgs args) with
+  | none => "bad-sexp"
+  | some s => match jsonOfSexp s with
+    | none => "bad-json-tree"
+    | some j => match decodeQueryDoc j with
+      | .ok d => (Wire.queryDoc d).render
+      | .error e => "E," ++ e
+
+def opJsonWf (args : List String) : String := withQueryDoc args fun d => if utf8CleanB d then "1" else "0"
+def opJsonSrcWf : List String → String
+  | [h] => match fromHex h with
+    | some bs => if sourceCleanB bs then "1" else "0"
+    | none => "bad-hex"
+  | _ => "bad-args"
+def opJsonLegacy (args : List String) : String := withQueryDoc args (rtWith legacyDisc)
+
 def jsonOps : List (String × (List String → String)) :=
-  [("jsonrt", opJsonRt), ("jsonrt2", opJsonRt2), ("jsonenc", opJsonEnc), ("jsonstr", opJsonStr), ("jsonsan", opJsonSan)]
+  [("jsonrt", opJsonRt), ("jsonrt2", opJsonRt2), ("jsonenc", opJsonEnc), ("jsonstr", opJsonStr), ("jsonsan", opJsonSan),
+   ("jsondec", opJsonDec), ("jsonwf", opJsonWf), ("jsonsrcwf", opJsonSrcWf), ("jsonlegacy", opJsonLegacy)]
 
 end Gql.Ops
